@@ -60,3 +60,24 @@ func thmAddThenHasPrefix(t *Trie, b []byte, n int) {
 	//@ assert h
 	_ = h
 }
+
+//@ theorem C15.deleteRemovesExtensions
+//@   props C15
+//@   requires t != nil && t <= alloc
+//@   requires forall y ref :: y != nil ==> !isnil(y.m)
+//@   requires forall y ref, k int :: has(y.m, k) ==> y.m[k] != nil
+//@   requires closed(heaphas(t.m), heapval(t.m), alloc)
+//@   requires len(b) > 0 && len(x) >= len(b) && forall k int :: 0 <= k && k < len(b) ==> x[k] == b[k]
+// Delete(b) removes every sequence that has b as a prefix: afterwards Has(x) is
+// false for every x that starts with the (non-empty) b - whether or not b was
+// present.
+func thmDeleteRemovesExtensions(t *Trie, b, x []byte) {
+	t.Delete(b)
+	h := t.Has(x)
+	p := t.Has(x[:len(b)])
+	q := t.Has(b)
+	//@ assert !q
+	//@ assert !p
+	//@ assert !h
+	_, _, _ = h, p, q
+}
